@@ -15,10 +15,13 @@ import builtins
 import errno
 import hashlib
 import io
+import json
 import os
 import random
+import signal
 import threading
 import time
+import traceback
 import uuid
 
 FAULT_NONE, FAULT_KILL, FAULT_ERROR = 0, 1, 2
@@ -133,6 +136,60 @@ class Actor:
         self.name_counter = 0
         self.thread = threading.Thread(target=self._main, name=f"actor-{idx}", daemon=True)
         self.exc = None
+        # process mode (knob mode="proc"): the actor is a real fork()ed process
+        self.os_pid = None
+        self.to_actor = None
+        self.from_actor = None
+
+    # ---- process mode, scheduler side ------------------------------------- #
+    def fork(self) -> None:
+        cmd_r, cmd_w = os.pipe()
+        msg_r, msg_w = os.pipe()
+        pid = _real_fork()
+        if pid == 0:
+            try:
+                os.close(cmd_w)
+                os.close(msg_r)
+                for other in self.sim.actors:  # pipes to siblings that were forked earlier
+                    for f in (other.to_actor, other.from_actor):
+                        if f is not None:
+                            f.close()
+                self.sim.become_actor_process(self, os.fdopen(cmd_r, "r"), os.fdopen(msg_w, "w"))
+            finally:
+                os._exit(0)
+        os.close(cmd_r)
+        os.close(msg_w)
+        self.os_pid = pid
+        self.to_actor = os.fdopen(cmd_w, "w")
+        self.from_actor = os.fdopen(msg_r, "r")
+
+    def send(self, obj) -> None:
+        self.to_actor.write(json.dumps(obj) + "\n")
+        self.to_actor.flush()
+
+    def recv(self):
+        line = self.from_actor.readline()
+        return json.loads(line) if line else None
+
+    def reap(self, kill: bool) -> None:
+        if self.os_pid is None:
+            return
+        if kill:
+            try:
+                os.kill(self.os_pid, signal.SIGKILL)
+            except ProcessLookupError:
+                pass
+        try:
+            os.waitpid(self.os_pid, 0)
+        except ChildProcessError:
+            pass
+        self.os_pid = None
+        for f in (self.to_actor, self.from_actor):
+            try:
+                f.close()
+            except OSError:
+                pass
+        self.to_actor = self.from_actor = None
 
     def _main(self) -> None:
         _tls.actor = self
@@ -170,6 +227,41 @@ class Sim:
         self.probes: dict[str, int] = {}
         self.current: Actor | None = None
         self.killed_at = None
+        self.mode = knobs.get("mode", "thread")
+        self.results: list = []
+        self.remote = None  # (reader, writer) inside an actor process
+        self.outbox: list = []
+
+    # ---- process mode, actor side ---------------------------------------- #
+    def become_actor_process(self, actor, reader, writer) -> None:
+        """Runs in the fork()ed child: talk to the scheduler over pipes, one seam at a time."""
+        self.remote = (reader, writer)
+        self.chooser = _RemoteChooser(self)
+        _tls.actor = actor
+        error = None
+        try:
+            self.seam("start", "")
+            actor.fn(actor)
+        except BaseException:  # noqa: BLE001  harness bug inside an actor script
+            error = traceback.format_exc()[-1500:]
+        self._tell({"done": True, "outbox": self.outbox, "error": error})
+
+    def _tell(self, obj) -> None:
+        self.remote[1].write(json.dumps(obj, default=str) + "\n")
+        self.remote[1].flush()
+
+    def _ask(self, obj):
+        self._tell(obj)
+        line = self.remote[0].readline()
+        if not line:  # scheduler gone
+            os._exit(0)
+        return json.loads(line)
+
+    def report(self, result: dict) -> None:
+        if self.remote is not None:
+            self.outbox.append(["report", result])
+        else:
+            self.results.append(result)
 
     # ---- helpers -------------------------------------------------------- #
     def owns(self, path) -> bool:
@@ -192,22 +284,48 @@ class Sim:
         return os.path.relpath(p, self.root)
 
     def probe(self, name: str, n: int = 1) -> None:
+        if self.remote is not None:
+            self.outbox.append(["probe", name, n])
+            return
         self.probes[name] = self.probes.get(name, 0) + n
 
+    def _forward(self, name: str, rel: str) -> bool:
+        if self.remote is not None:
+            self.outbox.append([name, rel])
+            return True
+        return False
+
+    def _apply_outbox(self, actor, outbox) -> None:
+        for item in outbox:
+            if item[0] == "report":
+                self.results.append(item[1])
+            elif item[0] == "probe":
+                self.probe(item[1], item[2])
+            else:
+                getattr(self, item[0])(actor, item[1])
+
     def probe_open_for_write(self, actor, rel) -> None:
+        if self._forward("probe_open_for_write", rel):
+            return
         if self.open_readers.get(rel):
             self.probe("writer_opened_file_open_for_reading")
         self.open_writers.setdefault(rel, set()).add(actor.idx)
 
     def probe_close_write(self, actor, rel) -> None:
+        if self._forward("probe_close_write", rel):
+            return
         self.open_writers.get(rel, set()).discard(actor.idx)
 
     def probe_open_for_read(self, actor, rel) -> None:
+        if self._forward("probe_open_for_read", rel):
+            return
         if self.open_writers.get(rel):
             self.probe("reader_opened_file_open_for_writing")
         self.open_readers.setdefault(rel, set()).add(actor.idx)
 
     def probe_close_read(self, actor, rel) -> None:
+        if self._forward("probe_close_read", rel):
+            return
         self.open_readers.get(rel, set()).discard(actor.idx)
 
     def spawn(self, name: str, fn, faults: bool = True) -> Actor:
@@ -222,11 +340,20 @@ class Sim:
         actor = getattr(_tls, "actor", None)
         if actor is None:
             return FAULT_NONE
-        actor.pending = (kind, detail)
-        actor.state = "parked"
-        self.back.release()
-        actor.go.acquire()
-        return actor.decision
+        if self.remote is not None:
+            outbox, self.outbox = self.outbox, []
+            reply = self._ask({"seam": [kind, detail], "writing": actor.writing, "in_call": actor.in_call,
+                               "outbox": outbox})
+            decision = reply["decision"]
+        else:
+            actor.pending = (kind, detail)
+            actor.state = "parked"
+            self.back.release()
+            actor.go.acquire()
+            decision = actor.decision
+        if decision == FAULT_ERROR:
+            actor.injected_error = True
+        return decision
 
     def chunk_mode(self, actor) -> int:
         modes = self.knobs.get("chunk_modes", [0])
@@ -295,6 +422,12 @@ class Sim:
         self.kill_sites[site] = self.kill_sites.get(site, 0) + 1
         if actor.writing:
             self.probe("kill_with_open_write_handle")
+        if actor.os_pid is not None:
+            actor.reap(kill=True)  # SIGKILL: the kernel closes the descriptors, nothing unwinds
+            for table in (self.open_writers, self.open_readers):
+                for holders in table.values():
+                    holders.discard(actor.idx)
+            return
         for f in list(actor.files):
             f.force_close()
         for fd in list(actor.fds):
@@ -309,7 +442,11 @@ class Sim:
         for actor in self.actors:
             if actor.state == "new":
                 actor.state = "parked"
-                actor.thread.start()
+                if self.mode == "proc":
+                    actor.fork()
+                    self._pump(actor)  # its "start" seam
+                else:
+                    actor.thread.start()
         stay = int(self.knobs.get("w_stay", 4))
         while True:
             runnable = [a for a in self.actors if a.state == "parked"]
@@ -336,15 +473,47 @@ class Sim:
             if fault == FAULT_ERROR:
                 self.errors_left -= 1
                 self.fired["error"] += 1
-                actor.injected_error = True
             actor.decision = fault
             actor.state = "running"
             self.current = actor
-            actor.go.release()
-            self.back.acquire()
+            if actor.os_pid is not None:
+                actor.send({"decision": fault})
+                self._pump(actor)
+            else:
+                actor.go.release()
+                self.back.acquire()
         for actor in self.actors:
             if actor.exc is not None:
                 raise actor.exc
+
+    def _pump(self, actor) -> None:
+        """Serve the running actor process until it parks at its next seam or finishes."""
+        while True:
+            msg = actor.recv()
+            if msg is None:
+                actor.reap(kill=True)
+                raise RuntimeError(f"actor process {actor.idx} died at {actor.pending}")
+            if "choose" in msg:
+                n, label, weights = msg["choose"]
+                actor.send({"value": self.chooser.choose(n, label, weights)})
+                continue
+            self._apply_outbox(actor, msg.get("outbox", []))
+            if msg.get("done"):
+                actor.state = "done"
+                actor.reap(kill=False)
+                if msg.get("error"):
+                    actor.exc = RuntimeError(msg["error"])
+                return
+            actor.pending = tuple(msg["seam"])
+            actor.writing = msg["writing"]
+            actor.in_call = msg["in_call"]
+            actor.state = "parked"
+            return
+
+    def shutdown(self) -> None:
+        for actor in self.actors:
+            if actor.os_pid is not None:
+                actor.reap(kill=True)
 
     def events_digest(self) -> str:
         m = hashlib.sha256()
@@ -352,6 +521,20 @@ class Sim:
             m.update(repr(ev).encode())
         return m.hexdigest()[:24]
 
+
+class _RemoteChooser:
+    """Inside an actor process every decision is still taken (and recorded) by the scheduler."""
+
+    def __init__(self, sim) -> None:
+        self.sim = sim
+
+    def choose(self, n: int, label: str, weights=None) -> int:
+        if n <= 1:
+            return 0
+        return self.sim._ask({"choose": [n, label, weights]})["value"]  # noqa: SLF001
+
+
+_real_fork = os.fork
 
 # --------------------------------------------------------------------------- #
 # seams
